@@ -17,6 +17,7 @@
  Rm memo          : every memoisation construct in the functions behind this property is keyed by everything it reads.
  Rp presence      : optional numeric fields are tested with `is None` / membership, never by truthiness (0 is a value).
  Re for-each      : loops that act on every item are never left early (break / return).
+ Ra alias mutation: a local that still names a list of another object (not copied) is never mutated in place.
 """
 import ast
 
@@ -721,6 +722,15 @@ def re_foreach(ctx):
     ctx.need('Re.for-each', 2)
 
 
+def ra_alias(ctx):
+    """Ra: a local that still names a list / dict of another object (bound from an attribute or an item, not copied on that path:
+    freshness lattice) is never mutated in place"""
+    from .common import alias_mutation_rule
+    from ..memo import scope_funcs
+    alias_mutation_rule(ctx, 'Ra.alias-mutation', scope_funcs(ctx.repo, 'C14'), 'the real spectrum map would change while only a scratch copy should')
+    ctx.need('Ra.alias-mutation', 5)
+
+
 from ..memo import rule_for as _memo_rule
 
 RULES_MEMO = ('Rm.memo', _memo_rule('C14', 'spectrum availability computed for another state would be reused'))
@@ -730,4 +740,4 @@ from ..presence import rule_for as _presence_rule
 
 RULES_PRESENCE = ('Rp.presence', _presence_rule('C14', 'a user-fixed slot N = 0 (the grid anchor) would be treated as not given and placed elsewhere'))
 
-RULES = [('R7.window', r7_window), ('R6.merge-probe', r6_merge_and_probe), ('R1.fresh', r1_fresh), ('R2.commit', r2_commit), ('R4.slots', r4_slots), ('R5.first-fit', r5_first_fit), RULES_MEMO, RULES_PRESENCE, ('Re.for-each', re_foreach)]
+RULES = [('R7.window', r7_window), ('R6.merge-probe', r6_merge_and_probe), ('R1.fresh', r1_fresh), ('R2.commit', r2_commit), ('R4.slots', r4_slots), ('R5.first-fit', r5_first_fit), RULES_MEMO, RULES_PRESENCE, ('Re.for-each', re_foreach), ('Ra.alias-mutation', ra_alias)]
